@@ -35,9 +35,19 @@ class Scenario(object):
         self.max_states = max_states
         self.finding = finding        # id of the known finding this scenario is dedicated to
         self.note = note
+        self._init_snap = None
+        self._init_pid = None
 
-    def fresh(self):
-        return self.world_cls(self.cfg)
+    def fresh(self, build=False):
+        """A world in the scenario's initial state, made of fresh objects.  The initial state is built by
+        the real initialisation path once per process and kept as a pickle; every later call unpickles
+        that snapshot (new plugin/state/printer objects, nothing shared between worlds)."""
+        if build or self._init_pid != os.getpid():
+            w = self.world_cls(self.cfg)
+            self._init_snap = w.snapshot()
+            self._init_pid = os.getpid()
+            return w
+        return self.world_cls.restore(self._init_snap, self.cfg)
 
 
 class Result(object):
